@@ -15,7 +15,7 @@ def writes (as : List (Act V)) : Nat := (as.filter isWrite).length
 /-! ## a drained state stays silent: without application writes nothing is ever sent again -/
 
 theorem clean_step_silent (x : Option V) (s : State V) (a : Act V) (hc : Clean x s) (ha : isWrite a = false) :
-    Clean x (step false replace s a) ∧ (step false replace s a).sent = s.sent := by
+    Clean x (step ra false replace s a) ∧ (step ra false replace s a).sent = s.sent := by
   obtain ⟨h1, h2, h3, h4, h5, h6⟩ := hc
   cases a with
   | writeH v => simp [isWrite] at ha
@@ -28,7 +28,7 @@ theorem clean_step_silent (x : Option V) (s : State V) (a : Act V) (hc : Clean x
       rw [h4]; conv => rhs; rw [← List.map_id s.clients]
       apply List.map_congr_left; intro c _; simp
     have e' : s.clients.map (fun c => { c with down := c.down ++ [] }) = s.clients := by rw [h4] at e; exact e
-    have hs : step false replace s .reactH = { s with host := { s.host with queue := [] } } := by
+    have hs : step ra false replace s .reactH = { s with host := { s.host with queue := [] } } := by
       simp only [step, h4, e', List.length_nil, Nat.zero_mul, Nat.add_zero]
     rw [hs]
     exact ⟨⟨h1, h2, h3, rfl, h5, h6⟩, rfl⟩
@@ -84,12 +84,12 @@ theorem clean_step_silent (x : Option V) (s : State V) (a : Act V) (hc : Clean x
 without application writes, sends nothing and changes no value -/
 theorem clean_run_silent (x : Option V) (s : State V) (as : List (Act V)) (hc : Clean x s)
     (ha : ∀ a ∈ as, isWrite a = false) :
-    Clean x (run false replace s as) ∧ (run false replace s as).sent = s.sent := by
+    Clean x (run ra false replace s as) ∧ (run ra false replace s as).sent = s.sent := by
   induction as generalizing s with
   | nil => exact ⟨hc, rfl⟩
   | cons a as ih =>
-    obtain ⟨h1, h2⟩ := clean_step_silent x s a hc (ha a (by simp))
-    obtain ⟨h3, h4⟩ := ih (step false replace s a) h1 (fun b hb => ha b (by simp [hb]))
+    obtain ⟨h1, h2⟩ := clean_step_silent (ra := ra) x s a hc (ha a (by simp))
+    obtain ⟨h3, h4⟩ := ih (step ra false replace s a) h1 (fun b hb => ha b (by simp [hb]))
     simp only [run, List.foldl_cons] at h3 h4 ⊢
     exact ⟨h3, by rw [h4, h2]⟩
 
@@ -101,26 +101,26 @@ def bit (b : Bool) : Nat := b.toNat
 def hPot (s : State V) : Nat := s.sent + s.clients.length * (s.host.queue.length + bit s.host.dirty)
 
 theorem clients_length_step (lg : Bool) (pt : V → V → V) (s : State V) (a : Act V) :
-    (step lg pt s a).clients.length = s.clients.length := by
-  have := congrArg List.length (ids_step lg pt s a)
+    (step ra lg pt s a).clients.length = s.clients.length := by
+  have := congrArg List.length (ids_step (ra := ra) lg pt s a)
   simpa using this
 
 theorem hpot_step (s : State V) (a : Act V) (hi : HInv s) (ha : HostWrites a) :
-    hPot (step false replace s a) ≤ hPot s + s.clients.length * bit (isWrite a) := by
+    hPot (step ra false replace s a) ≤ hPot s + s.clients.length * bit (isWrite a) := by
   obtain ⟨ht, hd, hv, hc⟩ := hi
-  have hl := clients_length_step false replace s a
+  have hl := clients_length_step (ra := ra) false replace s a
   unfold hPot
   rw [hl]
   generalize hN : s.clients.length = N at *
   cases a with
   | writeH v =>
-    have e1 : (step false replace s (.writeH v)).sent = s.sent := rfl
-    have e2 : (step false replace s (.writeH v)).host.queue = s.host.queue := rfl
-    have e3 : (step false replace s (.writeH v)).host.dirty = true := rfl
+    have e1 : (step ra false replace s (.writeH v)).sent = s.sent := rfl
+    have e2 : (step ra false replace s (.writeH v)).host.queue = s.host.queue := rfl
+    have e3 : (step ra false replace s (.writeH v)).host.dirty = true := rfl
     rw [e1, e2, e3]
     cases s.host.dirty <;> simp only [bit, isWrite, Bool.toNat_true, Bool.toNat_false, Nat.mul_add, Nat.mul_one, Nat.mul_zero] <;> omega
   | detectH =>
-    have e1 : (step false replace s .detectH).sent = s.sent := rfl
+    have e1 : (step ra false replace s .detectH).sent = s.sent := rfl
     rw [e1]
     cases hdirty : s.host.dirty with
     | false =>
@@ -136,30 +136,30 @@ theorem hpot_step (s : State V) (a : Act V) (hi : HInv s) (ha : HostWrites a) :
           List.length_nil, Nat.mul_zero, Nat.add_zero]
         omega
   | reactH =>
-    have e1 : (step false replace s .reactH).sent = s.sent + s.host.queue.length * N := by simp only [step, hN]
-    have e2 : (step false replace s .reactH).host.queue = [] := rfl
-    have e3 : (step false replace s .reactH).host.dirty = s.host.dirty := rfl
+    have e1 : (step ra false replace s .reactH).sent = s.sent + s.host.queue.length * N := by simp only [step, hN]
+    have e2 : (step ra false replace s .reactH).host.queue = [] := rfl
+    have e3 : (step ra false replace s .reactH).host.dirty = s.host.dirty := rfl
     rw [e1, e2, e3]
     simp only [isWrite, bit, Bool.toNat_false, List.length_nil, Nat.mul_zero, Nat.add_zero, Nat.zero_add, Nat.mul_add]
     rw [Nat.mul_comm s.host.queue.length N]
     omega
   | pollH i n =>
-    have e1 : (step false replace s (.pollH i n)).sent = s.sent := by
+    have e1 : (step ra false replace s (.pollH i n)).sent = s.sent := by
       simp only [step]; cases findClient i s.clients <;> rfl
-    have e2 : (step false replace s (.pollH i n)).host = s.host := by
+    have e2 : (step ra false replace s (.pollH i n)).host = s.host := by
       simp only [step]; cases findClient i s.clients <;> rfl
     rw [e1, e2]; simp [isWrite, bit]
   | flushH =>
-    have e : step false replace s .flushH = s := by simp only [step, hd]
+    have e : step ra false replace s .flushH = s := by simp only [step, hd]
     rw [e]; simp [isWrite, bit]
   | writeC i v => exact absurd ha (by simp [HostWrites])
   | detectC i =>
-    have e1 : (step false replace s (.detectC i)).sent = s.sent := rfl
-    have e2 : (step false replace s (.detectC i)).host = s.host := rfl
+    have e1 : (step ra false replace s (.detectC i)).sent = s.sent := rfl
+    have e2 : (step ra false replace s (.detectC i)).host = s.host := rfl
     rw [e1, e2]; simp [isWrite, bit]
   | reactC i =>
-    have e2 : (step false replace s (.reactC i)).host = s.host := rfl
-    have e1 : (step false replace s (.reactC i)).sent = s.sent := by
+    have e2 : (step ra false replace s (.reactC i)).host = s.host := rfl
+    have e1 : (step ra false replace s (.reactC i)).sent = s.sent := by
       simp only [step]
       cases hf : findClient i s.clients with
       | none => simp
@@ -168,23 +168,23 @@ theorem hpot_step (s : State V) (a : Act V) (hi : HInv s) (ha : HostWrites a) :
         simp [this]
     rw [e1, e2]; simp [isWrite, bit]
   | pollC i n =>
-    have e1 : (step false replace s (.pollC i n)).sent = s.sent := rfl
-    have e2 : (step false replace s (.pollC i n)).host = s.host := rfl
+    have e1 : (step ra false replace s (.pollC i n)).sent = s.sent := rfl
+    have e2 : (step ra false replace s (.pollC i n)).host = s.host := rfl
     rw [e1, e2]; simp [isWrite, bit]
   | flushC i =>
-    have e1 : (step false replace s (.flushC i)).sent = s.sent := rfl
-    have e2 : (step false replace s (.flushC i)).host = s.host := rfl
+    have e1 : (step ra false replace s (.flushC i)).sent = s.sent := rfl
+    have e2 : (step ra false replace s (.flushC i)).host = s.host := rfl
     rw [e1, e2]; simp [isWrite, bit]
 
 theorem hpot_run (s : State V) (as : List (Act V)) (hi : HInv s) (ha : ∀ a ∈ as, HostWrites a) :
-    hPot (run false replace s as) ≤ hPot s + s.clients.length * writes as := by
+    hPot (run ra false replace s as) ≤ hPot s + s.clients.length * writes as := by
   induction as generalizing s with
   | nil => simp [run, writes]
   | cons a as ih =>
     have ha1 := ha a (by simp)
-    have h1 := hpot_step s a hi ha1
-    have h2 := ih (step false replace s a) (hinv_step s a hi ha1) (fun b hb => ha b (by simp [hb]))
-    rw [clients_length_step] at h2
+    have h1 := hpot_step (ra := ra) s a hi ha1
+    have h2 := ih (step ra false replace s a) (hinv_step (ra := ra) s a hi ha1) (fun b hb => ha b (by simp [hb]))
+    rw [clients_length_step (ra := ra)] at h2
     simp only [run, List.foldl_cons] at h2 ⊢
     have hw : writes (a :: as) = bit (isWrite a) + writes as := by
       simp only [writes, List.filter_cons, bit]
@@ -196,10 +196,10 @@ theorem hpot_run (s : State V) (as : List (Act V)) (hi : HInv s) (ha : ∀ a ∈
 sent grows by at most `N` per application write, whatever the schedule -/
 theorem host_epoch_bounded (x : Option V) (s : State V) (as : List (Act V)) (hc : Clean x s)
     (ha : ∀ a ∈ as, HostWrites a) :
-    (run false replace s as).sent ≤ s.sent + s.clients.length * writes as := by
-  have h := hpot_run s as (clean_hinv x s hc) ha
+    (run ra false replace s as).sent ≤ s.sent + s.clients.length * writes as := by
+  have h := hpot_run (ra := ra) s as (clean_hinv x s hc) ha
   have h0 : hPot s = s.sent := by simp [hPot, hc.2.1, hc.2.2.2.1, bit]
-  have : (run false replace s as).sent ≤ hPot (run false replace s as) := by simp [hPot]
+  have : (run ra false replace s as).sent ≤ hPot (run ra false replace s as) := by simp [hPot]
   omega
 
 end Comp
@@ -240,15 +240,15 @@ theorem sublist_drop_mid {α : Type} (a b : List α) (v : α) (w : List α) (h :
   List.Sublist.trans (List.Sublist.append (List.Sublist.refl a) (List.sublist_cons_self v b)) h
 
 theorem hord_step (s : State V) (a : Act V) (hi : HOrd s) (ha : HostWrites a) :
-    HOrd (step false replace s a) := by
+    HOrd (step ra false replace s a) := by
   obtain ⟨hinv, ho⟩ := hi
-  refine ⟨hinv_step s a hinv ha, ?_⟩
+  refine ⟨hinv_step (ra := ra) s a hinv ha, ?_⟩
   obtain ⟨ht, hd, hv, hc⟩ := hinv
   cases a with
   | writeH v =>
     intro c hcm
     have h0 := ho c hcm
-    have e : hChain (step false replace s (.writeH v)).host c
+    have e : hChain (step ra false replace s (.writeH v)).host c
         = (c.p.shown ++ (c.defer ++ (c.down ++ s.host.queue))) ++ [v] := by
       simp [hChain, step, write, dvl, List.append_assoc]
     rw [e]
@@ -327,18 +327,18 @@ theorem hord_step (s : State V) (a : Act V) (hi : HOrd s) (ha : HostWrites a) :
         exact sublist_drop_mid _ _ v _ h0
 
 theorem hord_run (s : State V) (as : List (Act V)) (hi : HOrd s) (ha : ∀ a ∈ as, HostWrites a) :
-    HOrd (run false replace s as) := by
+    HOrd (run ra false replace s as) := by
   induction as generalizing s with
   | nil => exact hi
   | cons a as ih =>
-    have := ih (step false replace s a) (hord_step s a hi (ha a (by simp))) (fun b hb => ha b (by simp [hb]))
+    have := ih (step ra false replace s a) (hord_step (ra := ra) s a hi (ha a (by simp))) (fun b hb => ha b (by simp [hb]))
     simpa [run] using this
 
 /-- **ordered observation, host writes**: from a drained state with empty logs, whatever the schedule,
 the sequence of values any client displays is a subsequence of the values written, in the order written -/
 theorem host_epoch_ordered (x : Option V) (s : State V) (as : List (Act V)) (hc : Clean x s)
     (hlog : s.written = [] ∧ ∀ c ∈ s.clients, c.p.shown = []) (ha : ∀ a ∈ as, HostWrites a) :
-    ∀ c ∈ (run false replace s as).clients, List.Sublist c.p.shown (run false replace s as).written := by
+    ∀ c ∈ (run ra false replace s as).clients, List.Sublist c.p.shown (run ra false replace s as).written := by
   have h0 : HOrd s := by
     refine ⟨clean_hinv x s hc, fun c hcm => ?_⟩
     obtain ⟨c1, c2, c3, c4, c5, c6, c7⟩ := hc.2.2.2.2.2 c hcm
